@@ -823,7 +823,11 @@ class MappingNodeWithChildren(MappingNode):
 
                 found = False
                 for n in new_nodes[::-1]:
-                    if isinstance(n, TensorHolder) and n.component == node.component:
+                    if (
+                        isinstance(n, TensorHolder)
+                        and n.component == node.component
+                        and n.persistent == node.persistent
+                    ):
                         n.tensors.extend(
                             n2 for n2 in node.tensors if n2 not in n.tensors
                         )
